@@ -19,14 +19,22 @@ func init() {
 		Level: "exploration",
 		Rule: "every isomorphism class on n<=7 vertices (n<=8 thorough; harness-generated, Polya-checked) x relabellings (identity, reversal, seeded permutations) x representations " +
 			"{dense, sparse, InducedSubgraph view of a larger dense/sparse graph, Complement view of the complement graph, Complement(Complement(.))}; named families with published values; seeded G(n,p), trees and regular graphs on 9..13 vertices. " +
+			"Further representations of the argument graph: every one of these cases is also presented through a seeded VIEW OF A VIEW [rep:nested] - a chain of two or three view constructors planned backwards from the graph of the case and replayed on the reference graph: induced of induced with unsorted (now and then sorted) inner and outer lists, each level a full relabelling or a proper subset of a larger graph with junk vertices " +
+			"[nested:induced_of_induced,inner_list_unsorted,outer_proper_subset / ...,outer_full_relabelling], complement of induced, induced of complement, three levels [nested:three_levels], over a dense / sparse base that is plain or a variant, a pointer or a struct value (thorough: two chains of different depth) - " +
+			"and every second case (thorough: every case) through one of: rg.DenseVariant / rg.SparseVariant (edge bytes in 1..255, spare capacity filled with garbage; ChromaticPolynomial too) [rep:dense-variant, rep:sparse-variant], a graph.DenseGraph / graph.SparseGraph struct VALUE instead of a pointer [rep:dense-value, rep:sparse-value], " +
+			"a caller-implemented Graph (a type unknown to the library over rg.UserGraph; Neighbours hands out the stored adjacency lists, which are compared with the model afterwards; Degrees hands out a copy as every library implementation does - the library's own Complement(g).Degrees() writes into the slice it gets from g.Degrees()) [rep:user, user:stored_lists_compared_afterwards]. On a further representation the quick tier asks IsKColorable at chi-1, chi, chi+1 and GreedyColor on four orders (all n! where the case has them); everything else as on the five. " +
+			"The expected values of a value built by the library's view constructors (or of a variant of the struct contents) are those of the model of the graph it stands for by the documentation of its constructor, whatever its observers say (a difference is put into the detail and counted in rep_reads_unlike_model:*). " +
 			"Per (graph, representation): CliqueNumber, IndependenceNumber, AllMaximalCliques (channel drained for at most |expected|+1 values, must be closed), ChromaticNumber, IsKColorable for every k in 0..n+1, ChromaticIndex, Degeneracy, " +
 			"GreedyColor (all n! orders for n<=5 (n<=6 thorough) on the first labelling; identity, reversal, smallest-last and seeded orders otherwise), IsProperColouring, ChromaticPolynomial at k=0..n+1 (dense and sparse). " +
-			"Large structured graphs with closed-form values (K_n, E_n, paths, cycles and their complements, stars, K_{a,b}, Turan and other complete multipartite graphs, unions of cliques, wheels, ladders, prisms, cocktail party graphs, hypercubes Q5..Q7, the Mycielski chain to M6) at n in {31,32,33,63,64,65,66,100,127,128,129,130,200}, identity and a seeded relabelling, dense and sparse: all functions whose cost is polynomial for a correct implementation on that family (skips are counted in large:*_skipped), IsKColorable at chi-1, chi, chi+1, maximal cliques against the closed-form list. " +
+			"Large structured graphs with closed-form values (K_n, E_n, paths, cycles and their complements, stars, K_{a,b}, Turan and other complete multipartite graphs, unions of cliques, wheels, ladders, prisms, cocktail party graphs, hypercubes Q5..Q7, the Mycielski chain to M6) at n in {31,32,33,63,64,65,66,100,127,128,129,130,200}, identity and a seeded relabelling, dense and sparse: all functions whose cost is polynomial for a correct implementation on that family (skips are counted in large:*_skipped), IsKColorable at chi-1, chi, chi+1, maximal cliques against the closed-form list; the seeded relabelling of the graphs on n <= 130 vertices with at most 45000 maximal cliques gets one further representation as well (a view of a view for n <= 66) [large:graphs_in_further_representations]. " +
 			"non-trivial = (labelled graph, representation) with n >= 4 and m >= 2; distinct = hash of (graph6 of the labelled graph, representation)",
 		Assumptions: []string{
 			"oracle: subset scans / subset DP / plain backtracking of verif/internal/oracle/brute and of this package (edge-colouring search, partitions into independent sets, degeneracy as max-min-degree over induced subgraphs); validated at build time against the published chi and chi' histograms for n<=6, |P(Petersen,3)|=120 and a table of named graphs",
 			"isomorphism invariance of the reference values is a theorem: they are computed once per class and witnesses are checked on the labelled graph",
-			"rg.G.Dense()/Sparse() fill the exported struct fields of the library types directly (no constructor under test); a representation whose observers (N, M, IsEdge off the diagonal, Neighbours, Degrees) disagree with the model is not judged here (C05/C06) and only counted",
+			"rg.G.Dense()/Sparse() fill the exported struct fields of the library types directly (no constructor under test); a plainly filled struct (and the caller-implemented graph) whose observers (N, IsEdge off the diagonal) disagree with the model is not judged here (C05/C06): INCONCLUSIVE",
+			"graph.InducedSubgraph(g, V) is documented as 'the subgraph of g induced by the vertices in V in the order they are in V' and graph.Complement(g) as the complement: a chain of them over a harness-filled base stands for the graph obtained by replaying the chain on the reference graph (checked to be the graph of the case before use), and the invariants of that value are judged against that model",
+			"rg.DenseVariant / rg.SparseVariant are contents that the library's own constructor and observers read as the same graph (any edge byte > 0 is an edge; spare capacity is not part of the value); a DenseGraph / SparseGraph value has all observers of the Graph interface (value receivers)",
+			"a function that takes a graph.Graph ('a graph which cannot be copied or edited') does not write into the adjacency lists that a caller-implemented Graph hands out from Neighbours; the result of Degrees belongs to the caller (the library's own Complement(g).Degrees() overwrites the slice it gets from g.Degrees()), so the caller-implemented graph hands out a copy of its degrees",
 			"families too large for brute force use the published value; the witness is still checked from the definition",
 			"closed forms of the large structured families are textbook values, validated against brute force on the same constructors at n <= 12 (self-check), including the Perrin count of maximal cliques of the complement of a cycle",
 		},
@@ -35,6 +43,10 @@ func init() {
 		MinNontrivial:  map[string]int{"quick": 30000, "thorough": 200000},
 		RequiredObs: []string{
 			"rep:dense", "rep:sparse", "rep:view", "rep:compl", "rep:compl2",
+			"rep:nested", "nested:induced_of_induced", "nested:induced_of_induced,inner_list_unsorted,outer_proper_subset", "nested:induced_of_induced,inner_list_unsorted,outer_full_relabelling", "nested:induced_of_induced,inner_list_sorted",
+			"nested:complement_of_induced", "nested:induced_of_complement", "nested:three_levels",
+			"rep:dense-variant", "rep:sparse-variant", "rep:dense-value", "rep:sparse-value", "rep:user", "user:stored_lists_compared_afterwards",
+			"calls:ChromaticPolynomial|dense-variant", "calls:ChromaticPolynomial|sparse-variant", "large:graphs_in_further_representations",
 			"calls:CliqueNumber", "calls:IndependenceNumber", "calls:AllMaximalCliques", "calls:ChromaticNumber", "calls:IsKColorable",
 			"calls:ChromaticIndex", "calls:ChromaticPolynomial|dense", "calls:ChromaticPolynomial|sparse", "calls:GreedyColor", "calls:Degeneracy", "calls:IsProperColouring",
 			"IsKColorable:k<chi(refused)", "IsKColorable:k>=chi(witness)", "chi_index:class2(Delta+1)", "chi_index:class1(Delta)", "greedy:all_orders_sets", "cliques:graphs_with_>=4_maximal_cliques",
@@ -140,12 +152,12 @@ func classUnits(c *engine.Ctx, n int) {
 				}
 				for li, p := range labellings(c, n, nLab, "class-labelling", n*100000+ci) {
 					cs := &graphCase{workload: "classes", class: base.G6(), labelling: li, perm: p, g: base.Induced(p), ref: r}
-					opt := runOpts{index: true, polyDense: true, allOrders: n <= c.Pick(5, 6) && li == 0, seededOrders: 3, rng: caseRng(c, li < 2, "class", n*100000+ci, li)}
+					opt := runOpts{index: true, polyDense: true, allOrders: n <= c.Pick(5, 6) && li == 0, seededOrders: 3, rng: caseRng(c, li < 2, "class", n*100000+ci, li), nested: c.Pick(1, 2), variants: halfInQuick(c, ci+li)}
 					runCase(c, cs, opt)
 				}
 			}
 			if lo == 0 {
-				c.Obs(fmt.Sprintf("exhaustive:all %d classes on n=%d x %d labellings x 5 representations", nClasses, n, nLab), 1)
+				c.Obs(fmt.Sprintf("exhaustive:all %d classes on n=%d x %d labellings x 5 representations (+ a view of a view each)", nClasses, n, nLab), 1)
 			}
 		})
 	}
@@ -204,7 +216,7 @@ func familyUnits(c *engine.Ctx) {
 			n := f.g.N
 			for li, p := range labellings(c, n, 3, "family-labelling", fi) {
 				cs := &graphCase{workload: "family:" + f.name, class: f.g.G6(), labelling: li, perm: p, g: f.g.Induced(p), ref: r}
-				opt := runOpts{index: withIndex, polyDense: n <= 9, seededOrders: 6, rng: caseRng(c, li < 2, "family", fi, li)}
+				opt := runOpts{index: withIndex, polyDense: n <= 9, seededOrders: 6, rng: caseRng(c, li < 2, "family", fi, li), nested: c.Pick(1, 2), variants: c.Pick(1, 2)}
 				runCase(c, cs, opt)
 			}
 			if fi < 2 || f.name == "petersen" {
@@ -241,7 +253,7 @@ func seededUnits(c *engine.Ctx) {
 					continue
 				}
 				cs := &graphCase{workload: "seeded:" + what, class: g.G6(), labelling: 0, perm: identity(g.N), g: g, ref: r}
-				opt := runOpts{index: g.M() <= 18, polyDense: g.N <= 9, seededOrders: 6, rng: c.Rand("seeded-case", i)}
+				opt := runOpts{index: g.M() <= 18, polyDense: g.N <= 9, seededOrders: 6, rng: c.Rand("seeded-case", i), nested: c.Pick(1, 2), variants: halfInQuick(c, i)}
 				runCase(c, cs, opt)
 				if i < 2 {
 					c.Sample("seeded", map[string]interface{}{"kind": what, "graph6": g.G6(), "n": g.N, "m": g.M(), "omega": r.omega, "chi": r.chi, "chi_index": r.chiIdx, "degeneracy": r.degen})
@@ -263,6 +275,16 @@ func seededUnits(c *engine.Ctx) {
 			}
 		})
 	}
+}
+
+// halfInQuick: one further representation variant for every second case of
+// the quick tier and for every case of the thorough tier (every case gets a
+// view of a view).
+func halfInQuick(c *engine.Ctx, i int) int {
+	if c.Thorough() || i%2 == 0 {
+		return 1
+	}
+	return 0
 }
 
 func classCount(n int) int {
